@@ -123,8 +123,26 @@ Inductive case :=
    the array-level function (op as in CMesh; which of Mesh.*, TRS.TransformArray/InPlace, Quaternion.RotateArray is in
    the case description) on n points and compared EVERY element with the scalar entry point in Go:
    mismatches = number of differing elements, len_ok = output length = n.  samples = (input point, array output)
-   at a few indices (first, last, chunk boundaries, first mismatch) — evaluated here against the translated code. *)
-| CBig (tol : Q) (op : nat) (n mismatches : N) (len_ok : bool) (p s q : list Q) (samples : list (list Q * list Q)).
+   at a few indices (first, last, chunk boundaries, first mismatch) — evaluated here against the translated code:
+   entry 1 = TRS.TransformArray, 2 = TRS.TransformInPlace, 3 = Quaternion.RotateArray run the GENERATED array function
+   on the list of sampled inputs (it is element-wise, so a sub-list gives the same elements); entry 0 = mesh level
+   (Mesh.ApplyTRS hands the Position array to TransformArray: generated; Rotate/Translate/Scale: hand-written mesh_map). *)
+| CBig (tol : Q) (op entry : nat) (n mismatches : N) (len_ok : bool) (p s q : list Q) (samples : list (list Q * list Q)).
+
+(* the model of an array-level entry point (see CBig) *)
+Definition array_model (op entry : nat) (p s q : list Q) (xs : list (vec3 Q)) : list (vec3 Q) :=
+  let T := Trs.New (v3_of p) (quat_of q) (v3_of s) in
+  match entry with
+  | 1 => Trs.TRS_TransformArray T xs
+  | 2 => Trs.TRS_TransformInPlace T xs
+  | 3 => Quat.Quaternion_RotateArray (quat_of q) xs
+  | _ => match op with
+         | 0 => mesh_map (Quat.Quaternion_Rotate (quat_of q)) xs
+         | 1 => mesh_map (fun x => v3_add x (v3_of p)) xs
+         | 2 => mesh_map (fun x => v3_mult_by_vector x (v3_of s)) xs
+         | _ => Trs.TRS_TransformArray T xs
+         end
+  end.
 
 (* ------------------------------------------------------------------ model vs implementation *)
 Definition corr_ok (k : case) : bool :=
@@ -160,13 +178,7 @@ Definition corr_ok (k : case) : bool :=
       closel tol (v3_to (Trs.TRS_Transform (Trs.Rotation (quat_of q)) V)) oR &&
       closel tol (v3_to (Trs.TRS_Transform (Trs.TRS_Translate (Trs.New (v3_of p) (quat_of q) (v3_of s)) (v3_of d)) V)) oT
   | CMesh tol op p s q ps out pointwise rest_same =>
-      let f := match op with
-               | 0 => Quat.Quaternion_Rotate (quat_of q)
-               | 1 => fun x => v3_add x (v3_of p)
-               | 2 => fun x => v3_mult_by_vector x (v3_of s)
-               | _ => Trs.TRS_Transform (Trs.New (v3_of p) (quat_of q) (v3_of s))
-               end in
-      closell tol (map v3_to (mesh_map f (map v3_of ps))) out
+      closell tol (map v3_to (array_model op 0 p s q (map v3_of ps))) out
   | CBoxPt tol c e pt c2 e2 probes contains_pt =>
       let B := box_of c e in
       let B2 := Aabb.AABB_EncapsulatePoint B (v3_of pt) in
@@ -195,14 +207,8 @@ Definition corr_ok (k : case) : bool :=
           let ext := map (fun d => d * (1 # 2))%Q (map2q Qminus hi lo) in
           closel tol (map2q Qplus ext lo) c && closel tol ext e
       end
-  | CBig tol op n mismatches len_ok p s q samples =>
-      let f := match op with
-               | 0 => Quat.Quaternion_Rotate (quat_of q)
-               | 1 => fun x => v3_add x (v3_of p)
-               | 2 => fun x => v3_mult_by_vector x (v3_of s)
-               | _ => Trs.TRS_Transform (Trs.New (v3_of p) (quat_of q) (v3_of s))
-               end in
-      forallb (fun io => closel tol (v3_to (f (v3_of (fst io)))) (snd io)) samples
+  | CBig tol op entry n mismatches len_ok p s q samples =>
+      closell tol (map v3_to (array_model op entry p s q (map (fun io => v3_of (fst io)) samples))) (map snd samples)
   end.
 
 (* ------------------------------------------------------------------ the property on the implementation's output *)
@@ -285,7 +291,7 @@ Definition prop_ok (k : case) : bool :=
       (* ... and the box is tight: every face touches a point *)
       forallb (fun i => existsb (fun pt => close tol (qn pt i) (qn c i - qn e i)) pts &&
                         existsb (fun pt => close tol (qn pt i) (qn c i + qn e i)) pts)%Q [0; 1; 2]
-  | CBig tol op n mismatches len_ok p s q samples =>
+  | CBig tol op entry n mismatches len_ok p s q samples =>
       (* array-level = pointwise scalar entry point on every element, nothing dropped *)
       len_ok && N.eqb mismatches 0 &&
       forallb (fun io =>
